@@ -150,7 +150,7 @@ def _pool_p(tier):
 _FK = ["general", "rank_one", "linear", "constant"]
 _TERMINALS = ["log_integral", "evaluate_ln", "integrate_x", "integrate_xx", "integrate_lin", "integrate_quad_inner", "integrate_quad_outer",
               "integrate_cubic_inner", "integrate_cubic_outer", "integrate_xAxx", "integrate_xbxx", "integrate_quartic_inner",
-              "integrate_quartic_outer", "log_factor", "entropy_kl"]
+              "integrate_quartic_outer", "log_factor", "entropy_kl", "sample"]
 _PIPES = ["joint_eval", "marginal_eval", "bayes_posterior", "set_y_evidence", "cond_entropies", "log_conditional",
           "condition_on_dims", "kalman_scan", "lrbf_marginal", "lsem_log_conditional_y", "truncated", "nn_control", "update_in_program"] + \
          [f"{p_}:{l_}" for p_ in ("het_moments", "het_bound") for l_ in ("exp", "cosh", "heaviside", "relu")]
